@@ -33,6 +33,27 @@ Theorem c01_array_pattern_takes_values_then_undefined :
 Proof. exact spec_closed_form. Qed.
 Print Assumptions c01_array_pattern_takes_values_then_undefined.
 
+(* The same for a pattern that ends in a rest element: the rest array holds exactly the values
+   beyond the positions, an iterator that already reported done is not asked again, and the
+   iterator is never closed (it is exhausted). *)
+Theorem c01_array_pattern_with_rest_has_the_ecmascript_meaning :
+  forall (V : Type) (undef ret : V) (code : list op) (ks : list bool) (p : nat) (it : list V) (r : res V) (e : V) (d : bool),
+  code_at code p (cpattern_rest ks p) ->
+  exists k r' e' d',
+    run V undef ret code k (mk V p it r e d [] 0 false) =
+    Some (mk V (length (cpattern_rest ks p) + p) (a_iter V (spec_rest V undef ks it)) r' e' d'
+             (a_bound V (spec_rest V undef ks it)) (a_nexts V (spec_rest V undef ks it)) false).
+Proof. exact cpattern_rest_correct. Qed.
+Print Assumptions c01_array_pattern_with_rest_has_the_ecmascript_meaning.
+
+Theorem c01_array_pattern_rest_takes_what_is_left :
+  forall (V : Type) (undef : V) (ks : list bool) (it : list V),
+  a_bound V (spec_rest V undef ks it) = map (fun x => nth x it undef) (positions ks 0) ++ skipn (length ks) it /\
+  a_nexts V (spec_rest V undef ks it) = S (length it) /\
+  a_done V (spec_rest V undef ks it) = true.
+Proof. exact spec_rest_closed_form. Qed.
+Print Assumptions c01_array_pattern_rest_takes_what_is_left.
+
 (* The compilation this replaced does not have that meaning (the witness is the
    defect fixed by 6716020: a generator's return value bound by the pattern). *)
 Theorem c01_array_pattern_old_compilation_refuted :
